@@ -8,7 +8,8 @@ any number of workers `n`, and the code-shape flags the translator reads from
 the source (`fwd`: `handle_finishing_task` forwards `timed_out`; `excl`:
 `StopTask::on_finish` does not send Ok after its timed-out failure; `ret`:
 `handle_worker_response` retires an id once it got a terminal answer). The code
-as written is `false false false`; the driver runs `Hub.ofCode`, i.e. the
+as it was before the C09 repairs is `false false false`, the code as it is now
+`true true true`; the driver runs `Hub.ofCode`, i.e. the
 values of `Sozu.Consts.hub*` (a fourth flag, whether `request_type: None`,
 LaunchWorker and ReturnListenSockets are answered, only selects the verb class
 those requests are given: `Verb.noAnswer` or an immediate failure).
@@ -138,9 +139,54 @@ example :
     finalsOf 0 (run s ([] ++ [.request 0 .worker] ++ [.advance 11] ++ [.tick] ++ [])).log = 1 := by
   decide
 
-/-- F21: `request_type: None`, `LaunchWorker`, `ReturnListenSockets` are never answered. -/
+/-- every request the command socket carries, except the two gathered without a
+    deadline, is a verb answered at once or gathered under the worker timeout —
+    once the unimplemented requests are answered (`answers = true`) -/
+theorem classify_answered (cv : ClientVerb) (h1 : cv ≠ .softStop) (h2 : ∀ k, cv ≠ .load k) :
+    (cv.classify true).hasDeadline = true ∨ (cv.classify true).immediate.isSome = true := by
+  cases cv <;> simp_all [ClientVerb.classify, Verb.hasDeadline, Verb.immediate]
+
+/-- **C09 (exactly one final answer), the repaired code, full strength.** With
+    the code as it is now, EVERY client request accepted by a running main
+    process — mutating, rejected by the main state, query, status, metrics,
+    list, HardStop, LoadState of a missing file, `request_type: None`,
+    LaunchWorker, ReturnListenSockets — has exactly one final answer after the
+    first run-loop pass later than the worker timeout, whatever the workers do
+    (silent, dead, duplicate, late) and whatever else happens, while the main
+    process runs. The two exceptions are the verbs gathered with
+    `Timeout::None`, SoftStop and LoadState of an existing file (open finding,
+    `C09_one_final_answer_counterexample_no_deadline`). -/
+theorem C09_one_final_answer (ret : Bool) (T n : Nat)
+    (pre mid post : List Op) (c : Nat) (cv : ClientVerb)
+    (h1 : cv ≠ .softStop) (h2 : ∀ k, cv ≠ .load k)
+    (halive : (run (Hub.init true true ret T n) pre).run ≠ .exited)
+    (halive' : (run (Hub.init true true ret T n) (pre ++ [.request c (cv.classify true)] ++ mid)).run ≠ .exited)
+    (hlate : (run (Hub.init true true ret T n) pre).now + T
+        < (run (Hub.init true true ret T n) (pre ++ [.request c (cv.classify true)] ++ mid)).now) :
+    finalsOf (run (Hub.init true true ret T n) pre).nextReq
+      (run (Hub.init true true ret T n)
+        (pre ++ [.request c (cv.classify true)] ++ mid ++ [.tick] ++ post)).log = 1 :=
+  C09_one_final_answer_partial true true ret T n (Or.inr rfl) pre mid post c _
+    (classify_answered cv h1 h2) halive halive' hlate
+
+/-- non-vacuity on the repaired shape: a silent worker (one failure verdict at
+    the deadline), an unimplemented request (one failure at once) -/
+example :
+    finalsOf 0 (run (Hub.init true true true 10 2)
+      ([] ++ [.request 0 (ClientVerb.add.classify true)] ++ [.advance 11] ++ [.tick] ++ [])).log = 1 ∧
+    finalsOf 0 (run (Hub.init true true true 10 2)
+      ([] ++ [.request 0 (ClientVerb.launchWorker.classify true)] ++ [.advance 11] ++ [.tick] ++ [])).log = 1 ∧
+    finalsOf 0 (run (Hub.init true true true 10 2)
+      ([] ++ [.request 0 (ClientVerb.hardStop.classify true)] ++ [.advance 11])).log = 0 := by
+  decide
+
+/-- F21 (repaired in /repo): before the repair `request_type: None`, `LaunchWorker`,
+    `ReturnListenSockets` were classified `noAnswer` and never answered. -/
 theorem C09_one_final_answer_counterexample_no_answer_verb :
-    finalsOf 0 (run (Hub.init false false false 10 2) [.request 0 .noAnswer, .advance 1000, .tick]).log = 0 := by
+    finalsOf 0 (run (Hub.init false false false 10 2)
+      [.request 0 (ClientVerb.launchWorker.classify false), .advance 1000, .tick]).log = 0 ∧
+    finalsOf 0 (run (Hub.init true true true 10 2)
+      [.request 0 (ClientVerb.launchWorker.classify true), .advance 1000, .tick]).log = 1 := by
   decide
 
 /-- `SoftStop` and `LoadState` are gathered with `Timeout::None`: one silent (or
@@ -148,13 +194,20 @@ theorem C09_one_final_answer_counterexample_no_answer_verb :
 theorem C09_one_final_answer_counterexample_no_deadline :
     finalsOf 0 (run (Hub.init false false false 10 2)
       [.request 0 (.loadState 1), .response 0 ⟨0, 0, 1⟩ .ok, .close 1, .advance 1000, .tick]).log = 0 ∧
-    finalsOf 0 (run (Hub.init false false false 10 1) [.request 0 .softStop, .close 0, .advance 1000, .tick]).log = 0 := by
+    finalsOf 0 (run (Hub.init false false false 10 1) [.request 0 .softStop, .close 0, .advance 1000, .tick]).log = 0 ∧
+    -- still so with the code as it is now (open finding)
+    finalsOf 0 (run (Hub.init true true true 10 2)
+      [.request 0 (.loadState 1), .response 0 ⟨0, 0, 1⟩ .ok, .close 1, .advance 1000, .tick]).log = 0 ∧
+    finalsOf 0 (run (Hub.init true true true 10 1) [.request 0 .softStop, .close 0, .advance 1000, .tick]).log = 0 := by
   decide
 
 /-- a stop verb that completes shuts the main process down: a request that is
     still pending then is never answered (its client's session is closed). -/
 theorem C09_one_final_answer_counterexample_shutdown :
     finalsOf 0 (run (Hub.init false false false 10 1)
+      [.request 0 .worker, .request 1 .hardStop, .response 0 ⟨0, 1, 0⟩ .ok, .tick, .advance 1000, .tick]).log = 0 ∧
+    -- still so with the code as it is now (open finding)
+    finalsOf 0 (run (Hub.init true true true 10 1)
       [.request 0 .worker, .request 1 .hardStop, .response 0 ⟨0, 1, 0⟩ .ok, .tick, .advance 1000, .tick]).log = 0 := by
   decide
 
@@ -188,15 +241,11 @@ example : (run (Hub.init false false false 10 2) [.request 0 .worker, .advance 5
 
 /-- `Timeout::None` verbs have no such bound -/
 theorem C09_terminates_counterexample_no_deadline :
-    (run (Hub.init false false false 10 1) [.request 0 (.loadState 1), .advance 100000, .tick]).tasks ≠ [] := by
+    (run (Hub.init false false false 10 1) [.request 0 (.loadState 1), .advance 100000, .tick]).tasks ≠ [] ∧
+    (run (Hub.init true true true 10 1) [.request 0 (.loadState 1), .advance 100000, .tick]).tasks ≠ [] := by
   decide
 
 -- =============================================================== verdict ==
-
-/-- every id scattered for the task was answered Ok -/
-def AllAcked (t : Task) : Prop := ∀ rid ∈ t.sent, ∃ g ∈ t.got, g.2.1 = rid ∧ g.2.2 = .ok
-
-instance (t : Task) : Decidable (AllAcked t) := by unfold AllAcked; infer_instance
 
 /-- no worker answer was counted twice: every id is answered at most once with
     a terminal status in the event sequence -/
@@ -232,45 +281,49 @@ theorem C09_dispatch_targets_live (h : Hub) (c : Nat) (v : Verb) (rid : Rid) :
     refine ⟨rid.sub, h2, rid.worker, ⟨(rid.worker, false), ⟨h3, by simp⟩, rfl⟩, ?_⟩
     cases rid; simp_all
 
-/-- **C09 (Ok ⇒ every worker acknowledged).** For every event sequence in which
-    no id is answered twice — or any event sequence at all once answered ids are
-    retired (`ret = true`, the repaired code): when a mutating request (`worker_request`) is
-    answered Ok and the verdict was not taken on the deadline path — or the
-    deadline path forwards `timed_out` (`fwd = true`, the repaired code) — then
-    every id scattered for it (one per worker alive at dispatch) was answered
-    Ok, and no worker answered Failure. -/
+/-- **C09 (Ok ⇒ every worker acknowledged), every code shape.** For every event
+    sequence: when a mutating request (`worker_request`) or a LoadState is
+    answered Ok, then every id scattered for it (one per worker alive at
+    dispatch and per scattered request) was answered Ok and no worker answered
+    Failure — provided (i) no id is answered twice in the event sequence, or
+    answered ids are retired (`ret = true`), and (ii) the verdict was not taken
+    on the deadline path, or the deadline path forwards `timed_out`
+    (`fwd = true`). Both provisos hold for the repaired code (`C09_ok_iff_all_acked`);
+    each is necessary for the code as it was (counterexamples below). -/
 theorem C09_ok_iff_all_acked_partial (fwd excl ret : Bool) (T n : Nat) (ops : List Op)
     (hnd : ret = true ∨ NoDuplicateAnswers ops)
     (e : Emit) (he : e ∈ (run (Hub.init fwd excl ret T n) ops).log)
     (t : Task) (to : Bool) (hsrc : e.src = some (t, to)) (hk : e.kind = .ok)
-    (hverb : t.verb = .worker) (hpath : fwd = true ∨ to = false) :
+    (hverb : t.verb = .worker ∨ ∃ k, t.verb = .loadState k) (hpath : fwd = true ∨ to = false) :
     AllAcked t ∧ ∀ g ∈ t.got, g.2.2 ≠ .failure := by
   have hi := inv_run _ ops (inv_init fwd excl ret T n)
   have hcfg := run_cfg (Hub.init fwd excl ret T n) ops
   have hseen := seen_run (Hub.init fwd excl ret T n) ops
+  have hlt := logTimed_run fwd excl ret T n ops
   have hret : ret = true → Retired (run (Hub.init fwd excl ret T n) ops) := by
     intro h; subst h; exact retired_run fwd excl T n ops
   generalize run (Hub.init fwd excl ret T n) ops = s at *
   obtain ⟨hti, hto, _, _, hkind⟩ := hi.acc.log e he t to hsrc
   have hfwd : s.fwd = fwd := hcfg.1
-  -- the verdict rule of WorkerTask
   rw [hk, hfwd] at hkind
-  obtain ⟨herr, hpassed⟩ := verdict_worker_ok _ t _ hverb hkind
-  have hto' : to = false := by
-    rcases hpath with hp | hp
-    · subst hp; simpa using hpassed
-    · exact hp
+  -- the verdict rules: no error counted, and the verdict was not a deadline verdict
+  have hboth : t.errors = 0 ∧ to = false := by
+    rcases hverb with hv | ⟨k, hv⟩
+    · obtain ⟨herr, hpassed⟩ := verdict_worker_ok _ t _ hv hkind
+      refine ⟨herr, ?_⟩
+      rcases hpath with hp | hp
+      · subst hp; simpa using hpassed
+      · exact hp
+    · refine ⟨verdict_load_ok _ t _ k hv hkind, ?_⟩
+      -- LoadState is gathered without a deadline: it is only released once finished
+      cases hto' : to with
+      | false => rfl
+      | true => have := hlt e he t to hsrc hto'; simp [hv, Verb.hasDeadline] at this
+  obtain ⟨herr, hto'⟩ := hboth
   have hfin : hasFinished t = true := by
     have h0 : timedOut t = false := by rw [← hto, hto']
     simpa [timedOut] using h0
   simp only [hasFinished, decide_eq_true_eq] at hfin
-  -- no failure was counted
-  have hnofail : ∀ g ∈ t.got, g.2.2 ≠ .failure := by
-    have h0 : failCount t.got = 0 := by rw [← hti.errors]; exact herr
-    simp only [failCount, List.countP_eq_zero] at h0
-    intro g hg hgf; exact h0 g hg (by simp [hgf])
-  refine ⟨?_, hnofail⟩
-  -- the distinct terminal ids cover the scattered ids
   have hnodup : (termRids t.got).Nodup := by
     rcases hnd with hnd | hnd
     · exact (hret hnd).log e he t to hsrc
@@ -281,24 +334,42 @@ theorem C09_ok_iff_all_acked_partial (fwd excl ret : Bool) (T n : Nat) (ops : Li
       have h3 : (opRids ops).count rid ≤ 1 := List.nodup_iff_count.mp hnd rid
       simp only [Hub.init, List.count_nil, Nat.zero_add] at h2
       omega
-  have hsub : ∀ x ∈ termRids t.got, x ∈ t.sent := by
-    intro x hx
-    simp only [termRids, List.mem_map, List.mem_filter] at hx
-    obtain ⟨g, ⟨hg, _⟩, rfl⟩ := hx
-    exact hti.got_sent g hg
-  have hlen : t.sent.length ≤ (termRids t.got).length := by
-    rw [termRids_length, ← hti.ok, ← hti.errors, ← hti.expected]; omega
-  have hcov := covers_of_nodup (termRids t.got) t.sent hnodup hsub hlen
-  intro rid hrid
-  have := hcov rid hrid
-  simp only [termRids, List.mem_map, List.mem_filter] at this
-  obtain ⟨g, ⟨hg, hterm⟩, rfl⟩ := this
-  refine ⟨g, hg, rfl, ?_⟩
-  have := hnofail g hg
-  cases hst : g.2.2 with
-  | ok => rfl
-  | failure => exact absurd hst this
-  | processing => simp [hst] at hterm
+  exact ack_core s.seen t hti herr hfin hnodup
+
+/-- **C09 (Ok ⇒ every worker acknowledged), the repaired code, full strength.**
+    With `timed_out` forwarded and answered ids retired (the code as it is now:
+    `Consts.hubForwardsTimedOut`, `Consts.hubRetiresAnsweredIds`), for EVERY
+    event sequence — silent, dead, slow, duplicate-answering, impersonating
+    workers included — a mutating request or LoadState answered Ok was
+    acknowledged with Ok for every id scattered to the workers alive at
+    dispatch, and no Failure was counted. No hypothesis on the workers. -/
+theorem C09_ok_iff_all_acked (excl : Bool) (T n : Nat) (ops : List Op)
+    (e : Emit) (he : e ∈ (run (Hub.init true excl true T n) ops).log)
+    (t : Task) (to : Bool) (hsrc : e.src = some (t, to)) (hk : e.kind = .ok)
+    (hverb : t.verb = .worker ∨ ∃ k, t.verb = .loadState k) :
+    AllAcked t ∧ ∀ g ∈ t.got, g.2.2 ≠ .failure :=
+  C09_ok_iff_all_acked_partial true excl true T n ops (Or.inl rfl) e he t to hsrc hk hverb (Or.inl rfl)
+
+/-- **C09 (the code has the repaired shape).** The flags the translator reads from
+    the source now are those of the full-strength theorems (`C09_ok_iff_all_acked`,
+    `C09_one_final_answer`): the hub the driver runs against the real code,
+    `Hub.ofCode`, is `Hub.init true true true`. Stops compiling — a broken
+    obligation — when a later change reverts one of the repairs. -/
+theorem C09_code_has_repaired_shape (T n : Nat) :
+    Hub.ofCode T n = Hub.init true true true T n ∧ Consts.hubAnswersUnsupportedVerbs = true := by
+  constructor
+  · rfl
+  · decide
+
+/-- non-vacuity on the repaired shape: an Ok verdict exists, and the former
+    witnesses (silent worker, closed worker, duplicate answer) now end as failures -/
+example :
+    (run (Hub.init true true true 10 2) allAckOps).log.any (fun e => e.kind = .ok && e.src.isSome) = true ∧
+    (run (Hub.init true true true 10 2) silentWorkerOps).log.any (fun e => e.kind = .ok && e.src.isSome) = false ∧
+    (run (Hub.init true true true 10 2) closedWorkerOps).log.any (fun e => e.kind = .ok && e.src.isSome) = false ∧
+    (run (Hub.init true true true 10 2) (duplicateOps ++ [.advance 11, .tick])).log.any
+      (fun e => e.kind = .ok && e.src.isSome) = false := by
+  decide
 
 /-- a verdict violates "Ok ⇒ all acknowledged" -/
 def ackViolation (e : Emit) : Bool :=
@@ -314,7 +385,7 @@ example :
     ((run (Hub.init false false false 10 2) allAckOps).log.any ackViolation) = false := by
   decide
 
-/-- F17: with the code as written (`fwd = false`) a silent worker and the
+/-- F17 (repaired in /repo): with `fwd = false`, the code as it was, a silent worker and the
     deadline give Ok — "Successfully applied request to all workers". -/
 theorem C09_ok_iff_all_acked_counterexample_silent_worker :
     NoDuplicateAnswers silentWorkerOps ∧
@@ -374,9 +445,12 @@ theorem C09_failure_reported_means_failure (fwd excl ret : Bool) (T n : Nat) (op
 example : ∃ e ∈ (run (Hub.init false false false 10 1) [.request 0 .worker, .response 0 ⟨0, 0, 0⟩ .ok, .tick]).log,
     e.kind = .ok ∧ e.src.isSome = true := by decide
 
-/-- query / status / metrics verbs answer Ok whatever the workers said -/
+/-- query / status / metrics and stop verbs answer Ok whatever the workers said —
+    also with the code as it is now (open findings) -/
 theorem C09_ok_iff_all_acked_counterexample_query :
-    (run (Hub.init false false false 10 1) [.request 0 .query, .response 0 ⟨0, 0, 0⟩ .failure, .tick]).log.any
+    (run (Hub.init true true true 10 1) [.request 0 .query, .response 0 ⟨0, 0, 0⟩ .failure, .tick]).log.any
+      (fun e => e.kind = .ok && e.src.isSome) = true ∧
+    (run (Hub.init true true true 10 1) [.request 0 .softStop, .response 0 ⟨0, 0, 0⟩ .failure, .tick]).log.any
       (fun e => e.kind = .ok && e.src.isSome) = true := by
   decide
 
